@@ -3,6 +3,7 @@ package scen
 import (
 	"encoding/json"
 	"fmt"
+	"strings"
 	"syscall"
 	"time"
 
@@ -20,6 +21,10 @@ type PayloadPlan struct {
 	Items   []WireItem      `json:"items"` // all Kind "msg" with type 8 / 9 / 18
 	Joins   []PayloadJoin   `json:"joins"`
 	ByUnits int             `json:"by_units"`
+	// DropEquiv > 0: the publisher's stream is an ordinary H.264 stream into which one audio message lal cannot interpret
+	// is inserted (right after the sequence header); "dropped or forwarded opaquely" then means the rest of the stream is
+	// served as if the message had not been sent: an RTSP player still gets the description and the video
+	DropEquiv int `json:"drop_equiv,omitempty"`
 }
 
 type PayloadJoin struct {
@@ -40,6 +45,18 @@ func genC05Plan(r *sim.Rng, tier string) PayloadPlan {
 		n = 10 + r.Intn(120)
 	}
 	ts := uint32(r.Intn(1000))
+	if r.Bool(0.06) {
+		pl.DropEquiv = 1 + r.Intn(6)
+		pl.Items = append(pl.Items, WireItem{Kind: "msg", Type: 9, Gen: "seqhdr_trunc", N: 1000, Ts: ts, Msid: 1, Csid: 6})
+		odd := [][]byte{{0xaf, 0x00, 0x17, 0x90}, {0xaf, 0x00, 0x12}, {0xaf, 0x00, 0x06, 0x90}, {0xaf, 0x00, 0x16, 0x90}, {0xaf, 0x00, 0x17, 0x10}, {0xaf, 0x00, 0x12, 0x00}}[pl.DropEquiv-1]
+		pl.Items = append(pl.Items, WireItem{Kind: "msg", Type: 8, Gen: "literal", Lit: odd, Ts: ts, Msid: 1, Csid: 6})
+		for i := 0; i < 40; i++ {
+			ts += 40
+			pl.Items = append(pl.Items, WireItem{Kind: "msg", Type: 9, Gen: "valid_video", N: 50 + r.Intn(300), Shape: map[bool]int{true: 0, false: 1}[i%10 == 0], Seed: r.U64(), Ts: ts, Msid: 1, Csid: 6})
+		}
+		pl.Joins = []PayloadJoin{{After: r.Intn(3), Proto: "rtsp"}, {After: len(pl.Items), Proto: "rtsp"}}
+		return pl
+	}
 	for i := 0; i < n; i++ {
 		seed := r.U64()
 		switch r.Intn(12) {
@@ -85,7 +102,7 @@ func genC05Plan(r *sim.Rng, tier string) PayloadPlan {
 		case 6:
 			it = WireItem{Type: 9, Gen: []string{"seqhdr_trunc", "hevc_seqhdr_trunc"}[r.Intn(2)], N: r.Intn(80)}
 		case 7:
-			it = WireItem{Type: 18, Gen: []string{"meta_bad", "meta_nest", "rand", "amf_bigcount"}[r.Intn(4)], N: []int{0, 1, 5, 100, 2000}[r.Intn(5)]}
+			it = WireItem{Type: 18, Gen: []string{"meta_bad", "meta_nest", "rand", "amf_bigcount", "meta_knownkeys", "meta_knownkeys"}[r.Intn(6)], N: []int{0, 1, 5, 100, 2000}[r.Intn(5)], Shape: r.Intn(64)}
 		case 8, 9:
 			it = WireItem{Type: 9, Gen: "valid_video", N: 1 + r.Intn(400), Shape: r.Intn(2)}
 		case 10:
@@ -131,6 +148,7 @@ func execHostilePayload(k *sim.Kernel, pl PayloadPlan) {
 		k.Abort("the hostile-payload publisher was not accepted")
 	}
 	sent := 0
+	var rtspJoiners []*actors.RtspClient
 	for i := 0; i <= len(pl.Items); i++ {
 		for ji, j := range pl.Joins {
 			if j.After == i {
@@ -143,6 +161,7 @@ func execHostilePayload(k *sim.Kernel, pl PayloadPlan) {
 					a := actors.NewRtspClient(k, name, "play", fmt.Sprintf("rtsp://127.0.0.1:%d/live/hp", PortRtsp), j.Proto == "rtsp")
 					a.ClientPort = 22000 + 10*ji
 					a.Connect(PortRtsp, 20+ji)
+					rtspJoiners = append(rtspJoiners, a)
 				case "flv", "wsflv":
 					a := actors.NewHttpClient(k, name, j.Proto, "/live/hp.flv")
 					a.Connect(PortHttp, 20+ji)
@@ -183,6 +202,14 @@ func execHostilePayload(k *sim.Kernel, pl PayloadPlan) {
 	k.Advance(1200 * time.Millisecond)
 	if hp.Closed {
 		k.Probe("c05_publisher_closed_by_lal")
+	}
+	if pl.DropEquiv > 0 && !hp.Closed {
+		for ji, a := range rtspJoiners {
+			if !a.DescribeOK || !strings.Contains(a.SdpRecv, "H264") {
+				k.Violate("C05.uninterpretable-not-dropped", "RTSP player %d of an ordinary H.264 stream whose only oddity is one AAC sequence header lal cannot interpret (%x) got no description of the video 1.2 s and 40 frames later (statuses %v, %s): the message was neither dropped nor forwarded opaquely, it stalls the stream's RTSP output", ji, genPayload(pl.Items[1]), a.Status, a.Failed)
+			}
+		}
+		k.Probe("c05_drop_equivalence_runs")
 	}
 	if by.Actor.Closed || cons.Rtmp.Closed {
 		k.Violate("C05.bystander-disconnected", "the well-behaved stream was disconnected while another publisher sent odd payloads")
